@@ -214,21 +214,30 @@ def h_authorization(auth_kind: int, mask: int, nh: int, k0: int, l0: int, k1: in
     return True
 
 
-def h_upload_secret(exists: bool, share: int, qshare: int, stored: int, presented: int, other_si: bool) -> bool:
+def h_upload_secret(exists: bool, share: int, qshare: int, stored: int, presented: int, other_si: bool, exists2: bool, stored2: int) -> bool:
     """
-    pre: 0 <= share <= 2 and 0 <= qshare <= 2 and 0 <= stored <= 2 and 0 <= presented <= 2
+    pre: 0 <= share <= 2 and 0 <= qshare <= 2 and 0 <= stored <= 2 and 0 <= presented <= 2 and 0 <= stored2 <= 2
+    pre: B.get("second") is None or exists2 == (B["second"] == 1)
+    pre: exists2 or stored2 == 0
+    pre: B.get("other") is None or other_si == (B["other"] == 1)
     post: _ == True
     """
     toks = [b"secret-A", b"secret-B", b""]
     share, qshare, stored, presented = _pin(share, 0, 2), _pin(qshare, 0, 2), _pin(stored, 0, 2), _pin(presented, 0, 2)
+    stored2 = _pin(stored2, 0, 2)
     up = hs.UploadsInProgress()
     bucket = NS(name="bucket")
+    bucket2 = NS(name="bucket-of-second-client")
     other = NS(name="other-bucket")
     si = b"S" * 16
+    share2 = (share + 1) % 3
     if exists:
         up.add_write_bucket(si, share, toks[stored], bucket)
     # another client's upload to a different storage index, always with secret-A
     up.add_write_bucket(b"T" * 16, 0, toks[0], other)
+    # a second client allocates ANOTHER share of the same storage index afterwards, with its own secret
+    if exists2:
+        up.add_write_bucket(si, share2, toks[stored2], bucket2)
     q_si = b"T" * 16 if other_si else si
     got = None
     err = None
@@ -236,11 +245,15 @@ def h_upload_secret(exists: bool, share: int, qshare: int, stored: int, presente
         got = up.get_write_bucket(q_si, qshare, toks[presented])
     except hs._HTTPError as e:
         err = e
-    # model
+    # model: each in-progress upload (storage index, share number) has exactly the secret it was allocated with
     if other_si:
         target = (other, toks[0]) if qshare == 0 else None
+    elif exists and qshare == share:
+        target = (bucket, toks[stored])
+    elif exists2 and qshare == share2:
+        target = (bucket2, toks[stored2])
     else:
-        target = (bucket, toks[stored]) if (exists and qshare == share) else None
+        target = None
     if target is None:
         if got is not None:
             return "a bucket was returned for an upload that does not exist"
@@ -251,7 +264,7 @@ def h_upload_secret(exists: bool, share: int, qshare: int, stored: int, presente
             return "right secret did not return that upload's bucket"
     else:
         if got is not None:
-            return "in-progress upload handed out with the wrong upload secret"
+            return "in-progress upload handed out with a secret that is not its own (e.g. a sibling share's)"
         if err is None or err.code != _http.UNAUTHORIZED:
             return "wrong upload secret must be 401"
     # validate_upload_secret alone: silent for unknown uploads, 401 for a wrong secret
@@ -264,8 +277,12 @@ def h_upload_secret(exists: bool, share: int, qshare: int, stored: int, presente
         return "validate_upload_secret disagrees with the model"
     # removing the bucket forgets the upload and its secret (a sibling share of the same storage index stays)
     if exists and not other_si:
-        sibling = NS(name="sibling")
-        up.add_write_bucket(si, (share + 1) % 3, toks[0], sibling)
+        sibling = bucket2
+        sib_tok = toks[stored2]
+        if not exists2:
+            sibling = NS(name="sibling")
+            sib_tok = toks[0]
+            up.add_write_bucket(si, share2, sib_tok, sibling)
         up.remove_write_bucket(bucket)
         for tok in toks:
             try:
@@ -275,7 +292,7 @@ def h_upload_secret(exists: bool, share: int, qshare: int, stored: int, presente
                     return "removed upload: expected 404 whatever secret is presented (its secret must be forgotten)"
             else:
                 return "removed upload still handed out"
-        if up.get_write_bucket(si, (share + 1) % 3, toks[0]) is not sibling:
+        if up.get_write_bucket(si, share2, sib_tok) is not sibling:
             return "removing one share's upload disturbed its sibling"
         if up.get_write_bucket(b"T" * 16, 0, toks[0]) is not other:
             return "removing one upload disturbed another client's upload"
